@@ -176,12 +176,16 @@ Fixpoint q_final (ic : nat) (r : rq) (ops : list qop) : rq :=
   match ops with [] => r | o :: rest => q_final ic (snd (q_apply ic r o)) rest end.
 
 (* ------------------------------------------------------------------ Part 2: concurrent model *)
+(* Workers are indexed by their id (= index of their local ring, as in dispatcher.workers); at most
+   n = number of local rings of them exist, n arbitrary.  readyQueue.push and readyQueue.close are
+   single lock-protected sections, so external producers/closers need no program counter: the labels
+   CPush / CClose are enabled in every state (any number of concurrent producers). *)
 Inductive wpc :=
 | TLocalProbe            (* popFront: sizeAtomic.Load() *)
 | TLocalPop              (* popFront: locked section *)
 | TGlobalProbe           (* popGlobal: globalCount.Load() *)
 | TGlobalPop             (* popGlobal: locked section *)
-| TSteal (i : nat)       (* trySteal: victim.sizeAtomic.Load() for i-th sibling *)
+| TSteal (i : nat)       (* trySteal: victim.sizeAtomic.Load() for the i-th sibling *)
 | TStealLock (i : nat)   (* stealHalf under both locks *)
 | TPark                  (* parkAndTake: Lock; closed? size>0? parked++; Wait *)
 | Waiting                (* in cond's wait set *)
@@ -189,28 +193,24 @@ Inductive wpc :=
 | Holding (x : tok)      (* take returned x: runTurn in progress *)
 | Exited.
 
-Inductive cthread :=
-| CProducer              (* an external goroutine that may call readyQueue.push at any time *)
-| CWorker (w : nat) (p : wpc)   (* worker with id w (index of its local ring) *)
-| CCloser (done : bool).
-
 Record cstate := MkC {
   c_locals : list (list tok);   (* FIFO contents of the local rings *)
   c_global : list tok;
   c_parked : nat;               (* readyQueue.parked *)
   c_closed : bool;
-  c_threads : list cthread;
+  c_workers : list wpc;         (* worker w's program counter at index w *)
   c_next : tok;                 (* ghost: fresh token ids *)
   c_pushed : list tok;          (* ghost *)
   c_taken : list tok;           (* ghost *)
 }.
 
 Inductive clabel :=
-| CSpawnProducer | CSpawnWorker | CSpawnCloser
-| CPush (i : nat)            (* producer i: readyQueue.push(fresh token) *)
-| CStep (i : nat)            (* thread i: next atomic step *)
-| CRepush (i : nat)          (* worker i while Holding: worker.reschedule(fresh token) = pushLocal *)
-| CSpurious (i : nat).       (* a Waiting thread wakes without a signal *)
+| CSpawnWorker               (* dispatcher.start: go w.run() *)
+| CPush                      (* some goroutine: readyQueue.push(fresh token) *)
+| CClose                     (* readyQueue.close() *)
+| CStep (w : nat)            (* worker w: next atomic step *)
+| CRepush (w : nat)          (* worker w while Holding: worker.reschedule(fresh token) = pushLocal *)
+| CSpurious (w : nat).       (* a Waiting worker wakes without a signal *)
 
 Definition c_init (n : nat) : cstate := MkC (repeat [] n) [] 0 false [] 0 [] [].
 
@@ -221,15 +221,16 @@ Fixpoint upd {A} (l : list A) (i : nat) (a : A) : list A :=
   | x :: r, S j => x :: upd r j a
   end.
 
-(* wake the first thread that is Waiting (cond.Signal) *)
-Fixpoint signal_one (ts : list cthread) : list cthread :=
+(* cond.Signal: wake the first worker that is Waiting *)
+Fixpoint signal_one (ts : list wpc) : list wpc :=
   match ts with
   | [] => []
-  | CWorker w Waiting :: r => CWorker w Woken :: r
+  | Waiting :: r => Woken :: r
   | t :: r => t :: signal_one r
   end.
-Definition broadcast (ts : list cthread) : list cthread :=
-  map (fun t => match t with CWorker w Waiting => CWorker w Woken | _ => t end) ts.
+(* cond.Broadcast *)
+Definition broadcast (ts : list wpc) : list wpc :=
+  map (fun t => match t with Waiting => Woken | _ => t end) ts.
 
 Definition lq (s : cstate) (w : nat) : list tok := nth w (c_locals s) [].
 
@@ -246,97 +247,88 @@ Definition asteal (K : nat) (q dst : list tok) : option tok * list tok * list to
 (* readyQueue.push under parkMu *)
 Definition c_do_push (s : cstate) (x : tok) : cstate :=
   MkC (c_locals s) (c_global s ++ [x]) (c_parked s) (c_closed s)
-      (if 0 <? c_parked s then signal_one (c_threads s) else c_threads s)
+      (if 0 <? c_parked s then signal_one (c_workers s) else c_workers s)
       (c_next s) (c_pushed s) (c_taken s).
 
-Definition c_set_thread (s : cstate) (i : nat) (t : cthread) : cstate :=
-  MkC (c_locals s) (c_global s) (c_parked s) (c_closed s) (upd (c_threads s) i t) (c_next s) (c_pushed s) (c_taken s).
+Definition c_set_pc (s : cstate) (w : nat) (t : wpc) : cstate :=
+  MkC (c_locals s) (c_global s) (c_parked s) (c_closed s) (upd (c_workers s) w t) (c_next s) (c_pushed s) (c_taken s).
 Definition c_set_local (s : cstate) (w : nat) (q : list tok) : cstate :=
-  MkC (upd (c_locals s) w q) (c_global s) (c_parked s) (c_closed s) (c_threads s) (c_next s) (c_pushed s) (c_taken s).
+  MkC (upd (c_locals s) w q) (c_global s) (c_parked s) (c_closed s) (c_workers s) (c_next s) (c_pushed s) (c_taken s).
 Definition c_set_global (s : cstate) (g : list tok) : cstate :=
-  MkC (c_locals s) g (c_parked s) (c_closed s) (c_threads s) (c_next s) (c_pushed s) (c_taken s).
+  MkC (c_locals s) g (c_parked s) (c_closed s) (c_workers s) (c_next s) (c_pushed s) (c_taken s).
 Definition c_set_parked (s : cstate) (n : nat) : cstate :=
-  MkC (c_locals s) (c_global s) n (c_closed s) (c_threads s) (c_next s) (c_pushed s) (c_taken s).
+  MkC (c_locals s) (c_global s) n (c_closed s) (c_workers s) (c_next s) (c_pushed s) (c_taken s).
 Definition c_fresh (s : cstate) : cstate :=
-  MkC (c_locals s) (c_global s) (c_parked s) (c_closed s) (c_threads s) (S (c_next s)) (c_pushed s ++ [c_next s]) (c_taken s).
+  MkC (c_locals s) (c_global s) (c_parked s) (c_closed s) (c_workers s) (S (c_next s)) (c_pushed s ++ [c_next s]) (c_taken s).
 Definition c_take (s : cstate) (x : tok) : cstate :=
-  MkC (c_locals s) (c_global s) (c_parked s) (c_closed s) (c_threads s) (c_next s) (c_pushed s) (c_taken s ++ [x]).
+  MkC (c_locals s) (c_global s) (c_parked s) (c_closed s) (c_workers s) (c_next s) (c_pushed s) (c_taken s ++ [x]).
 
 (* the body of parkAndTake's loop, entered with parkMu held *)
-Definition c_park_body (s : cstate) (i w : nat) : cstate :=
-  if c_closed s then c_set_thread s i (CWorker w Exited)
+Definition c_park_body (s : cstate) (w : nat) : cstate :=
+  if c_closed s then c_set_pc s w Exited
   else match c_global s with
-       | x :: g => c_set_thread (c_take (c_set_global s g) x) i (CWorker w (Holding x))
-       | [] => c_set_thread (c_set_parked s (S (c_parked s))) i (CWorker w Waiting)
+       | x :: g => c_set_pc (c_take (c_set_global s g) x) w (Holding x)
+       | [] => c_set_pc (c_set_parked s (S (c_parked s))) w Waiting
        end.
 
-Definition c_step_worker (K : nat) (s : cstate) (i w : nat) (p : wpc) : option cstate :=
+Definition c_step_worker (K : nat) (s : cstate) (w : nat) (p : wpc) : option cstate :=
   let n := length (c_locals s) in
   match p with
-  | TLocalProbe => Some (c_set_thread s i (CWorker w (if length (lq s w) =? 0 then TGlobalProbe else TLocalPop)))
+  | TLocalProbe => Some (c_set_pc s w (if length (lq s w) =? 0 then TGlobalProbe else TLocalPop))
   | TLocalPop =>
       match lq s w with
-      | [] => Some (c_set_thread s i (CWorker w TGlobalProbe))
-      | x :: r => Some (c_set_thread (c_take (c_set_local s w r) x) i (CWorker w (Holding x)))
+      | [] => Some (c_set_pc s w TGlobalProbe)
+      | x :: r => Some (c_set_pc (c_take (c_set_local s w r) x) w (Holding x))
       end
-  | TGlobalProbe => Some (c_set_thread s i (CWorker w (if length (c_global s) =? 0 then TSteal 1 else TGlobalPop)))
+  | TGlobalProbe => Some (c_set_pc s w (if length (c_global s) =? 0 then TSteal 1 else TGlobalPop))
   | TGlobalPop =>
       match c_global s with
-      | [] => Some (c_set_thread s i (CWorker w (TSteal 1)))
-      | x :: g => Some (c_set_thread (c_take (c_set_global s g) x) i (CWorker w (Holding x)))
+      | [] => Some (c_set_pc s w (TSteal 1))
+      | x :: g => Some (c_set_pc (c_take (c_set_global s g) x) w (Holding x))
       end
   | TSteal k =>
-      if (n <=? k) || (n =? 1) then Some (c_set_thread s i (CWorker w TPark))
-      else Some (c_set_thread s i (CWorker w (if length (lq s ((w + k) mod n)) =? 0 then TSteal (S k) else TStealLock k)))
+      if (n <=? k) || (n =? 1) then Some (c_set_pc s w TPark)
+      else Some (c_set_pc s w (if length (lq s ((w + k) mod n)) =? 0 then TSteal (S k) else TStealLock k))
   | TStealLock k =>
       let v := (w + k) mod n in
-      if v =? w then Some (c_set_thread s i (CWorker w (TSteal (S k))))
+      if v =? w then Some (c_set_pc s w (TSteal (S k)))
       else
       match asteal K (lq s v) (lq s w) with
-      | (None, _, _) => Some (c_set_thread s i (CWorker w (TSteal (S k))))
-      | (Some x, qv, qw) => Some (c_set_thread (c_take (c_set_local (c_set_local s v qv) w qw) x) i (CWorker w (Holding x)))
+      | (None, _, _) => Some (c_set_pc s w (TSteal (S k)))
+      | (Some x, qv, qw) => Some (c_set_pc (c_take (c_set_local (c_set_local s v qv) w qw) x) w (Holding x))
       end
-  | TPark => Some (c_park_body s i w)
+  | TPark => Some (c_park_body s w)
   | Waiting => None                       (* blocked until signalled *)
-  | Woken => Some (c_park_body (c_set_parked s (pred (c_parked s))) i w)   (* parked--, loop again *)
-  | Holding _ => Some (c_set_thread s i (CWorker w TLocalProbe))   (* runTurn returned; worker.run loops *)
+  | Woken => Some (c_park_body (c_set_parked s (pred (c_parked s))) w)   (* parked--, loop again *)
+  | Holding _ => Some (c_set_pc s w TLocalProbe)   (* runTurn returned; worker.run loops *)
   | Exited => None
   end.
 
 Definition cstep (K : nat) (s : cstate) (l : clabel) : option cstate :=
   match l with
-  | CSpawnProducer => Some (MkC (c_locals s) (c_global s) (c_parked s) (c_closed s) (c_threads s ++ [CProducer]) (c_next s) (c_pushed s) (c_taken s))
-  | CSpawnCloser => Some (MkC (c_locals s) (c_global s) (c_parked s) (c_closed s) (c_threads s ++ [CCloser false]) (c_next s) (c_pushed s) (c_taken s))
   | CSpawnWorker =>
-      (* one worker per local ring; worker ids are ring indices *)
-      let w := length (filter (fun t => match t with CWorker _ _ => true | _ => false end) (c_threads s)) in
-      if w <? length (c_locals s)
-      then Some (MkC (c_locals s) (c_global s) (c_parked s) (c_closed s) (c_threads s ++ [CWorker w TLocalProbe]) (c_next s) (c_pushed s) (c_taken s))
+      if length (c_workers s) <? length (c_locals s)
+      then Some (MkC (c_locals s) (c_global s) (c_parked s) (c_closed s) (c_workers s ++ [TLocalProbe]) (c_next s) (c_pushed s) (c_taken s))
       else None
-  | CPush i =>
-      match nth_error (c_threads s) i with
-      | Some CProducer => Some (c_do_push (c_fresh s) (c_next s))
-      | _ => None
+  | CPush => Some (c_do_push (c_fresh s) (c_next s))
+  | CClose => Some (MkC (c_locals s) (c_global s) (c_parked s) true (broadcast (c_workers s)) (c_next s) (c_pushed s) (c_taken s))
+  | CStep w =>
+      match nth_error (c_workers s) w with
+      | Some p => c_step_worker K s w p
+      | None => None
       end
-  | CStep i =>
-      match nth_error (c_threads s) i with
-      | Some (CWorker w p) => c_step_worker K s i w p
-      | Some (CCloser false) =>
-          Some (MkC (c_locals s) (c_global s) (c_parked s) true (upd (broadcast (c_threads s)) i (CCloser true)) (c_next s) (c_pushed s) (c_taken s))
-      | _ => None
-      end
-  | CRepush i =>
-      match nth_error (c_threads s) i with
-      | Some (CWorker w (Holding _)) =>
+  | CRepush w =>
+      match nth_error (c_workers s) w with
+      | Some (Holding _) =>
           let x := c_next s in
           let s1 := c_fresh s in
           if length (lq s1 w) <? K then Some (c_set_local s1 w (lq s1 w ++ [x]))
           else Some (c_do_push s1 x)
       | _ => None
       end
-  | CSpurious i =>
-      match nth_error (c_threads s) i with
-      | Some (CWorker w Waiting) => Some (c_set_thread s i (CWorker w Woken))
+  | CSpurious w =>
+      match nth_error (c_workers s) w with
+      | Some Waiting => Some (c_set_pc s w Woken)
       | _ => None
       end
   end.
@@ -351,6 +343,36 @@ Inductive creach (K n : nat) : cstate -> Prop :=
 | creach_init : creach K n (c_init n)
 | creach_step : forall s l s', creach K n s -> cstep K s l = Some s' -> creach K n s'.
 
-Definition is_waiting (t : cthread) : nat := match t with CWorker _ Waiting => 1 | _ => 0 end.
-Definition is_woken (t : cthread) : nat := match t with CWorker _ Woken => 1 | _ => 0 end.
-Definition ccnt (f : cthread -> nat) (l : list cthread) : nat := fold_right (fun t a => f t + a) 0 l.
+Definition is_waiting (t : wpc) : nat := match t with Waiting => 1 | _ => 0 end.
+Definition is_woken (t : wpc) : nat := match t with Woken => 1 | _ => 0 end.
+Definition ccnt (f : wpc -> nat) (l : list wpc) : nat := fold_right (fun t a => f t + a) 0 l.
+(* worker w has passed its own local ring in take() and not yet returned from it, or is parked / gone *)
+Definition past_local (p : wpc) : bool :=
+  match p with
+  | TGlobalProbe | TGlobalPop | TSteal _ | TStealLock _ | TPark | Waiting | Woken | Exited => true
+  | _ => false
+  end.
+
+(* operation kinds of the worker program, for the source-order tie *)
+Inductive qopk := QLocalProbe | QLocalPop | QGlobalProbe | QGlobalPop | QStealProbe | QStealLocked
+                | QParkSection | QBlocked | QWakeSection | QTurnEnd | QGone.
+Definition wpc_op (p : wpc) : qopk :=
+  match p with
+  | TLocalProbe => QLocalProbe | TLocalPop => QLocalPop | TGlobalProbe => QGlobalProbe | TGlobalPop => QGlobalPop
+  | TSteal _ => QStealProbe | TStealLock _ => QStealLocked | TPark => QParkSection | Waiting => QBlocked
+  | Woken => QWakeSection | Holding _ => QTurnEnd | Exited => QGone
+  end.
+(* ops executed by CStep labels along a run (labels that are not enabled are skipped) *)
+Fixpoint ctrace (K : nat) (s : cstate) (ls : list clabel) : list (nat * qopk) :=
+  match ls with
+  | [] => []
+  | l :: r =>
+      match cstep K s l with
+      | Some s' =>
+          match l with
+          | CStep w => match nth_error (c_workers s) w with Some p => [(w, wpc_op p)] | None => [] end
+          | _ => []
+          end ++ ctrace K s' r
+      | None => ctrace K s r
+      end
+  end.
